@@ -24,11 +24,11 @@ def run(ctx):
     total, samples, states, trans = {}, [], 0, 0
     # ---- E: exhaustive small programs, enumerated by TLC
     # quick: one half (chosen by the seed) of all programs of <= 3 instructions;
-    # thorough: all programs of <= 3 instructions and 4 of 16 shards (chosen by the seed) of those of <= 4
+    # thorough: all programs of <= 3 instructions and 3 of 16 shards (chosen by the seed) of those of <= 4
     if quick:
         shards = [("cfg/VMAliasCases.quick.cfg", ctx.seed % 2)]
     else:
-        shards = [("cfg/VMAliasCases.full3.cfg", 0)] + [("cfg/VMAliasCases.thorough.cfg", (ctx.seed + 4 * j) % 16) for j in range(4)]
+        shards = [("cfg/VMAliasCases.full3.cfg", 0)] + [("cfg/VMAliasCases.thorough.cfg", (ctx.seed + 5 * j) % 16) for j in range(3)]
     exhaustive = not quick
     fam0 = None
     for n, (cfg, k) in enumerate(shards):
@@ -47,7 +47,7 @@ def run(ctx):
         if len(ctx.violations) >= 12:
             break
     # ---- T: seeded random programs
-    nrand = 2000 if quick else 30000
+    nrand = 2000 if quick else 20000
     raw = os.path.join(ctx.work, "random.ndjson")
     ctx.harness([b, "gen", raw, str(nrand)])
     famr = vm_lib.family(ctx, b, [raw], "random", nshards=1 if quick else 2)
@@ -71,7 +71,7 @@ def run(ctx):
              "T: %d seeded random programs of 3-12 instructions over 40 instructions; each executed "
              "in 3 buffer layouts; non-trivial = at least one instruction completes in the reference execution"
              % ("one half (by seed) of all programs of <= 3 instructions" if quick else
-                "all programs of <= 3 instructions and 4 of 16 shards (by seed) of all programs of <= 4 instructions", nrand),
+                "all programs of <= 3 instructions and 3 of 16 shards (by seed) of all programs of <= 4 instructions", nrand),
     ), assumptions=[
         "the alt stack is observed only through later data-stack contents (vm.TraceOut does not print it)",
         "hash functions are uninterpreted; their values are facts computed with the Go standard library",
